@@ -152,6 +152,12 @@ def vexpr(c: Any, prog: Dict[str, Any]) -> str:
         return "{" + ", ".join(f"{k!r}: {vexpr(v, prog)}" for k, v in c[1].items()) + "}"
     if tag == "enum":
         return f"{c[1]}.{c[2]}"
+    if tag == "std":
+        img = c[2]
+        return {"uuid": f"uuid.UUID({img!r})", "date": f"datetime.date.fromisoformat({img!r})",
+                "datetime": f"datetime.datetime.fromisoformat({img!r})", "time": f"datetime.time.fromisoformat({img!r})",
+                "decimal": f"decimal.Decimal({str(img)!r})", "bytes": f"__import__('base64').b64decode({img!r})",
+                "path": f"pathlib.Path({img!r})", "ipv4": f"ipaddress.IPv4Address({img!r})"}[c[1]]
     if tag == "nt":  # NewType value: same runtime class as the base
         return vexpr(c[1], prog)
     if tag == "obj":
@@ -169,7 +175,7 @@ def vexpr(c: Any, prog: Dict[str, Any]) -> str:
 
 
 def _immutable(c: Any) -> bool:
-    return c[0] in ("none", "bool", "int", "float", "str", "undef", "enum") or (
+    return c[0] in ("none", "bool", "int", "float", "str", "undef", "enum", "std") or (
         c[0] == "tuple" and all(_immutable(x) for x in c[1])) or (c[0] == "nt" and _immutable(c[1]))
 
 
